@@ -7,7 +7,7 @@ from vlib.common import ToolError
 ATTR = {
     'C04': ['Conservation', 'NoDuplicateEntries', 'NoAlienJobs', 'RegistrySync', 'TourJobsSync', 'MultiWhole', 'ParentUnchanged',
             'PlacesAndWindows', 'Reach', 'ShiftStart', 'DepartureNotBeforeEarliest', 'DepartureNotAfterLatest', 'ShiftEnd',
-            'Capacity', 'Skills', 'LimitDistance', 'LimitDuration', 'LimitTourSize', 'Groups', 'Compat', 'OrderHard',
+            'Capacity', 'Skills', 'RechargeDistance', 'LimitDistance', 'LimitDuration', 'LimitTourSize', 'Groups', 'Compat', 'OrderHard',
             'RelationVehicle', 'RelationOrder', 'ConditionalDistinct', 'Panic'],
     'C05': ['CacheFresh', 'FitnessFunctionOfTours', 'VectorsFreshAfterEveryInsertion', 'TourScalarsFreshAfterEveryInsertion', 'AggregatesFreshAfterEveryInsertion', 'ScheduleArrivals', 'ScheduleDepartures', 'ReportedLoad', 'StopDistances',
             'TourStat'],
@@ -65,6 +65,11 @@ def run(pid, tier):
             c = pgen.make_case(rnd.randrange(1 << 30), 'medium', features={'breaks': True, 'unreachable': False, 'travel_only': False})
             c['steps'] = steps
             c['only'] = ['search', 'search', 'rr']
+        if i % 20 in (4, 14):
+            # recharge stations (a distance budget per stretch) on most shifts of a small / medium problem
+            from checks.solve_oracle import add_recharge
+            c = add_recharge(pgen.make_case(rnd.randrange(1 << 30), rnd.choice(['small', 'medium']), features={'unreachable': False}), rnd)
+            c['steps'] = steps
         c['threads'] = rnd.choice([1, 2, 4])
         c['seed'] = rnd.randrange(1 << 30)
         cases.append(c)
